@@ -49,6 +49,18 @@ CHECKS.update({
         technique='Lean model + differential correspondence + DDL-reader oracle (theorems staged)',
         design='6/C04'),
 })
+CHECKS.update({
+    'C09': dict(
+        level='translation_validation',
+        text='Lean state machine of Database.add/delete/rename over a universe of clashing objects, tied to the real classes by '
+             'running the same operation histories on both sides (all pairs/triples of 34 core operations, random histories to '
+             'length 60) and comparing outcome and canonical state after every step; model-free oracle (lists = added and not '
+             'deleted, back-pointers, lookup under current names, snapshots around rejected calls); table-level column/index '
+             'histories by oracle. Invariant theorems staged.',
+        note='trusted: hand-written model tied by sampling; identity modelled by universe indices',
+        technique='Lean state-machine model + history correspondence + invariant oracle (invariant proof staged)',
+        design='6/C09'),
+})
 UNDER_CONSTRUCTION = 'check under construction (model and harness being built; see DESIGN.md)'
 
 
